@@ -199,16 +199,13 @@ def dictForm (args : Args) (items : List (Label × Rat)) (flt : Bool) : Except E
 
 def lookup (items : List (Label × Rat)) (v : Label) : Option Rat := (items.find? (·.1 = v)).map (·.2)
 
-/-- a Python dict built by successive assignments `d[v] = x`: first position of each key, last value -/
-def dictOf (kvs : List (Label × Rat)) : List (Label × Rat) :=
-  (firsts (kvs.map (·.1))).map fun v => (v, ((kvs.reverse.find? (·.1 = v)).map (·.2)).getD 0)
-
 /-- the deprecated `(mapping, labels)` branch of `_as_samples_tuple` -/
 def tupleMappingForm (args : Args) (items : List (Label × Rat)) (flt : Bool) (labels : List Label) : Except Err Out :=
   -- `for v in labels: d[v] = array_like[v]`; `KeyError` → `ValueError("inconsistent labels")`
   if labels.all (fun v => (lookup items v).isSome) then
     -- `array_like, _ = as_samples(d)`: default arguments
-    match dictForm {} (dictOf (labels.map fun v => (v, (lookup items v).getD 0))) flt with
+    -- (`d` keeps the first position of every label; a repeated label is assigned the same value `array_like[v]` again)
+    match dictForm {} ((firsts labels).map fun v => (v, (lookup items v).getD 0)) flt with
     | .error e => .error e
     | .ok o => tupleTail args ⟨.nd o.dtype, .d2 o.rows o.width⟩ labels
   else .error .value
@@ -313,10 +310,31 @@ def Form.denote : Form → List (List (Label × Rat))
   | .tupleLen _ => []
   | .sampleset labels rows _ => rows.map (zipRow labels)
   | .iterator l => Form.denoteAll l
-  | .sequence l => Form.denoteAll l
+  | .sequence l =>
+    if l.any Form.isMapping then Form.denoteAll l
+    else match seqAsArray l with      -- a list of rows is ONE array: `[[], []]` has two (empty) rows
+      | some a => a.rows2d.1.map (zipRow (rangeLabels a.rows2d.2))
+      | none => []
 def Form.denoteAll : List Form → List (List (Label × Rat))
   | [] => []
   | f :: fs => f.denote ++ Form.denoteAll fs
+end
+
+mutual
+/-- label lists without repetitions, sample-set rows as wide as the variables: what the inputs of the property are -/
+def Form.Clean : Form → Prop
+  | .mapping items _ => (items.map (·.1)).Nodup
+  | .array _ => True
+  | .tuple _ labels => labels.Nodup
+  | .tupleMapping _ _ labels => labels.Nodup
+  | .tupleIterator _ => True
+  | .tupleLen _ => True
+  | .sampleset labels rows _ => labels.Nodup ∧ ∀ row ∈ rows, row.length = labels.length
+  | .iterator l => Form.CleanAll l
+  | .sequence l => Form.CleanAll l
+def Form.CleanAll : List Form → Prop
+  | [] => True
+  | f :: fs => f.Clean ∧ Form.CleanAll fs
 end
 
 /-! ### the standard encodings of one table -/
